@@ -10,16 +10,17 @@ META = {
     "level": "model_checking",
     "engine": "small",
     "technique": "TLA+ spec KeyStore model-checked with TLC (the fs design refines the map model); TLC's behaviours replayed step by step on MemStore and the fs Store (spec->impl conformance)",
-    "text": "TLC enumerates every sequence of entry / vacant insert|drop / occupied get*|remove|drop / get / try_insert / remove / reopen (open|clone) over 2 ids (plus root-directory removal at the tail) and checks that the fs design (files, open handle, file offset) refines the map model (Refines, DirIsMap, NothingLeftBehind, OccupiedIffInserted, ReadsReturnStored, GoneIsError). Every emitted behaviour is replayed through the public KeyStore/Entry API of both real stores; after every step result class, returned key, directory listing (exactly one file per occupied id + canary) and get() of every id are compared with the model, and at the end after dropping any open handle.",
-    "note": "Bounds: 2 ids; quick: all behaviours of <= 5 calls; thorough: all behaviours of <= 6 calls, VIEW-reduced design check at 9 calls x 3 ids, simulation to 10 calls x 3 ids. fs store on tmpfs (/dev/shm) plus a sample on the real disk under work/C45. One handle at a time, one thread (the Entry borrows the store); debug-assertion build (canary enabled).",
+    "text": "TLC enumerates every sequence of entry / vacant insert|drop / occupied get*|remove|drop / get / try_insert / remove / failing insert (wrapped key whose Serialize errors; at most one per behaviour) / reopen (open|clone) over 2 ids (plus root-directory removal at the tail) and checks that the fs design (files, open handle, file offset) refines the map model (Refines, DirIsMap, NothingLeftBehind, OccupiedIffInserted, ReadsReturnStored, GoneIsError). Every emitted behaviour is replayed through the public KeyStore/Entry API of both real stores; after every step result class, returned key, directory listing (exactly one file per occupied id + canary) and get() of every id are compared with the model, and at the end after dropping any open handle.",
+    "note": "Bounds: 2 ids; quick: TLC exhaustive at 5 calls, replay of every behaviour of <= 4 calls + seeded sample of 8000 5-call behaviours; thorough: every behaviour of <= 5 calls + seeded sample of 80000 6-call behaviours (TLC exhaustive at 6), VIEW-reduced design check at 9 calls x 3 ids, simulation to 10 calls x 3 ids. fs store on tmpfs (/dev/shm) plus a sample on the real disk under work/C45. One handle at a time, one thread (the Entry borrows the store); debug-assertion build (canary enabled).",
 }
 
-ACTIONS = ["Entry", "VInsert", "VDrop", "OGet", "ORemove", "ODrop", "Get", "TryInsert", "Remove",
+ACTIONS = ["Entry", "VInsert", "VInsertFail", "TryInsertFail", "VDrop", "OGet", "ORemove", "ODrop", "Get", "TryInsert", "Remove",
            "Reopen", "RootGone", "EntryGone"]
 DESIGN_BUGS = [  # (cfg, invariants one of which TLC must report)
     ("MC_KeyStore_seekbug.cfg", ("Refines", "ReadsReturnStored")),
     ("MC_KeyStore_dropbug.cfg", ("DirIsMap", "NothingLeftBehind")),
     ("MC_KeyStore_existbug.cfg", ("Refines", "GoneIsError")),
+    ("MC_KeyStore_dirtybug.cfg", ("Refines", "DirIsMap", "NothingLeftBehind", "OccupiedIffInserted")),
 ]
 
 
@@ -58,22 +59,25 @@ def run(ctx):
     # ---- design level: exhaustive TLC; the fs design refines the map model
     r5 = ctx.tlc("KeyStore", "MC_KeyStore.cfg", timeout=900)
     ctx.require_actions(r5, ACTIONS)
-    # behaviours of n calls extend those of n-1 calls: replaying all maximal ones covers the shorter
-    sets = [("all5", r5.replays, None)]
-    if ctx.thorough:
-        r6 = ctx.tlc("KeyStore", "MC_KeyStore_6.cfg", timeout=1800)
-        rd = ctx.tlc("KeyStore", "MC_KeyStore_deep.cfg", timeout=1800)
+    if not ctx.thorough:
+        # every behaviour of <= 4 calls (deterministic: all short shapes such as get-twice,
+        # get-then-remove, failing insert) + a seeded sample of the 5-call behaviours
+        r4 = ctx.tlc("KeyStore", "MC_KeyStore_4.cfg", timeout=900)
+        sets = [("all4", r4.replays, None), ("sample5", r5.replays, 8000)]
+    else:
+        r6 = ctx.tlc("KeyStore", "MC_KeyStore_6.cfg", timeout=3000)
+        rd = ctx.tlc("KeyStore", "MC_KeyStore_deep.cfg", timeout=3000)
         ctx.require_actions(rd, ACTIONS)
         rs = ctx.tlc("KeyStore", "MC_KeyStore_sim.cfg", simulate=3000, depth=12, timeout=900)
-        sets = [("all6", r6.replays, None), ("sim10", rs.replays, None)]
-    # the named deviations must violate the invariants (the spec's invariants are not vacuous)
-    for cfg, invs in DESIGN_BUGS:
-        rb = ctx.tlc("KeyStore", cfg, allow_violation=True, coverage=False, timeout=600)
-        ctx.states -= rb.states
-        ctx.transitions -= rb.generated
-        if rb.violated not in invs:
-            raise verif.ToolError("spec self-test: %s should violate one of %s, TLC says %r"
-                                  % (cfg, invs, rb.violated))
+        sets = [("all5", r5.replays, None), ("sample6", r6.replays, 80000), ("sim10", rs.replays, None)]
+        # the named deviations must violate the invariants (the spec's invariants are not vacuous)
+        for cfg, invs in DESIGN_BUGS:
+            rb = ctx.tlc("KeyStore", cfg, allow_violation=True, coverage=False, timeout=600)
+            ctx.states -= rb.states
+            ctx.transitions -= rb.generated
+            if rb.violated not in invs:
+                raise verif.ToolError("spec self-test: %s should violate one of %s, TLC says %r"
+                                      % (cfg, invs, rb.violated))
 
     # ---- conformance: replay on both real stores
     counts = {}
@@ -86,13 +90,13 @@ def run(ctx):
         gone = [b for b in beh if has_gone(b) and b["steps"][-1]["op"] != "rootgone"]
         if cap:
             plain = verif.sample(ctx.rng, plain, cap)
-            gone = verif.sample(ctx.rng, gone, cap // 5)
+            gone = verif.sample(ctx.rng, gone, cap // 10)
         else:
             gone = verif.sample(ctx.rng, gone, 2000)
         ctx.absorb(replay(ctx, vh, plain, name))
         ctx.absorb(replay(ctx, vh, gone, name + "-gone"))
         counts[name] = {"emitted": len(beh), "replayed": len(plain) + len(gone)}
-        nontrivial += sum(1 for b in plain if any(s["op"] in ("oget", "oremove", "vdrop") for s in b["steps"]))
+        nontrivial += sum(1 for b in plain if any(s["op"] in ("oget", "oremove", "vdrop", "vinsertfail", "tryinsertfail") for s in b["steps"]))
         disk_pool += plain
     # the same behaviours against the real disk (fdatasync, ext4 directory semantics)
     disk = verif.sample(ctx.rng, disk_pool, 3000 if ctx.thorough else 300)
@@ -114,12 +118,12 @@ def run(ctx):
 
     ctx.cov.update({
         "exhaustive": True,
-        "constants": {"NIds": 2, "MaxOps": 6 if ctx.thorough else 5, "GoneTail": 1,
+        "constants": {"NIds": 2, "MaxOps": 6 if ctx.thorough else 5, "GoneTail": 1, "MaxFail": 1,
                       "deep": "NIds=3 MaxOps=9 (VIEW)" if ctx.thorough else None,
                       "simulation": "NIds=3 MaxOps=10 num=3000 per worker" if ctx.thorough else None},
         "behaviours": counts,
-        "behaviours_with_handle_reads_or_drops": nontrivial,
-        "spec_selftest": "seekbug/dropbug/existbug configurations violate the invariants",
+        "behaviours_with_handle_reads_drops_or_failing_inserts": nontrivial,
+        "spec_selftest": "seekbug/dropbug/existbug/dirtybug configurations violate the invariants (thorough tier)",
         "selftest": "perturbed r / v / files / map rejected",
     })
     ctx.assumptions += [
